@@ -77,6 +77,12 @@ func (r *Recorder) blocksJSON(s *Scenario, blocks []BlockRec) []line {
 		if len(ch) > 0 {
 			r.Stats["blocks_with_cheaters"]++
 		}
+		for i := 1; i < len(ch); i++ {
+			if ch[i] < ch[i-1] {
+				r.Stats["cheater_lists_not_in_id_order"]++
+				break
+			}
+		}
 		if b.Frame == 1 {
 			r.Stats["epoch_first_blocks"]++
 		}
@@ -181,6 +187,12 @@ func (r *Recorder) End() { r.emit(line{"op": "end"}) }
 
 // Crit records that the instance reported a critical error (it is unusable afterwards).
 func (r *Recorder) Crit(msg string) {
+	if len(msg) > 7 && msg[:7] == "panic: " {
+		// a panic that is not a crit() call: never a legitimate step, also not in Byzantine runs
+		r.emit(line{"op": "panic", "msg": msg})
+		r.Stats["panics"]++
+		return
+	}
 	r.emit(line{"op": "crit", "msg": msg})
 	r.Stats["critical_errors"]++
 }
